@@ -506,10 +506,25 @@ class Summaries:
                     if i < len(params):
                         p = params[i]
                         if (p.get("ref") and not p.get("const_ref")) or (p.get("ptr") and not p.get("const_ptr")):
+                            if self._is_prvalue_call(fn, a):
+                                continue        # the value a call returned (a temporary), even when the call reads as a member
                             r = root_item(fn.term(a))
                             if r:
                                 out.add(r)
         return out
+
+    @staticmethod
+    def _is_prvalue_call(fn, a):
+        """The argument expression is a call that returns by value: what is handed over is a temporary, whatever term the
+        call is read as (a trivial accessor `GetName()` reads as the member it returns a copy of)."""
+        i = fn.strip(a, casts=False)
+        nd = fn.n(i) if i is not None and i >= 0 else {}
+        while nd.get("k") in ("MaterializeTemporaryExpr", "CXXBindTemporaryExpr", "ImplicitCastExpr", "ExprWithCleanups", "ParenExpr") and fn.kids(nd["id"]):
+            nd = fn.n(fn.kids(nd["id"])[0])
+        if nd.get("k") in ("CallExpr", "CXXMemberCallExpr"):
+            rt = nd.get("ret_t") or nd.get("t") or ""
+            return not rt.rstrip().endswith("&") and "*" not in rt
+        return False
 
     def never_returns(self, fn):
         """Every path of fn ends in a throw (helpers like throwReadError)."""
